@@ -322,8 +322,11 @@ func HarnessC02ConcBloom2()        { zz2Conc(zz2LBloom) }
 func HarnessC02ConcRebuildRead2()  { zz2ConcRebuild([]int{zz2Has, zz2Get, zz2GetSize}) }
 func HarnessC02ConcRebuildWrite2() { zz2ConcRebuild([]int{zz2Put, zz2Delete, zz2PutMany01}) }
 
-// HarnessC02ConcBuild: the initial asynchronous build (bloomCached) races with one operation.
-func HarnessC02ConcBuild() {
+func HarnessC02ConcBuild()  { zz2ConcBuild() }
+func HarnessC02ConcBuild2() { zz2ConcBuild() }
+
+// zz2ConcBuild: the initial asynchronous build (bloomCached) races with one operation.
+func zz2ConcBuild() {
 	zz2Repeat(func() {
 		ops := []int{zz2Has, zz2Get, zz2Put, zz2Delete}
 		op := ops[zz2Range("op", 0, len(ops)-1)]
